@@ -26,7 +26,9 @@ class C08(Prop):
                 "NV.C08.remove_hash_precondition", "NV.C08.remove_hash_absent_drops_chain", "NV.C08.unlink_preserves",
                 "NV.C08.no_dangling", "NV.C08.task_no_crash", "NV.C08.no_crash", "NV.C08.init_only_adjacent",
                 "NV.C08.command_giver_valid", "NV.C08.command_target_live", "NV.C08.destructed_drops_sentences",
-                "NV.C08.exec_good", "NV.C08.superWalk_clear", "NV.C08.acyclic_redirect", "NV.C08.init_inv"]
+                "NV.C08.exec_good", "NV.C08.destruct_order_tie", "NV.C08.move_efun_order_tie", "NV.C08.move_order_tie",
+                "NV.C08.load_order_tie", "NV.C08.clone_order_tie", "NV.C08.find_or_load_order_tie",
+                "NV.C08.hb_remove_order_tie", "NV.C08.present2_order_tie", "NV.C08.flag_bits_tie", "NV.C08.superWalk_clear", "NV.C08.acyclic_redirect", "NV.C08.init_inv"]
     consts = [("oDestructed", "O_DESTRUCTED"), ("oEnableCommands", "O_ENABLE_COMMANDS"), ("oClone", "O_CLONE")]
     const_headers = ["lpc/object.h"]
     quick_n = 700
@@ -49,7 +51,10 @@ class C08(Prop):
                   "hash_living_name); the correspondence harness (differential, only the generated histories); hooks are oracle "
                   "scripts; crash freedom is proved (no_crash); termination of the super walk is not ("
                   "never observed to be `hang`) nor the string-level top theorem judge(model trace) = []")
-    rule = ("cases = corpus + known-finding inputs + boundary list (failing moves, self-destructing create, destruct during the "
+    rule = ("[audit round: adds move_object(string) / first_inventory(string) with loads that run create() hooks, present() with "
+            "id() hooks, add_action / command(), the backend tick (heart_beat() of every enabled object incl. the last one "
+            "destructing itself), errors inside every hook kind, heart_beats() listing; oracle self-test of 82 traces] "
+            "cases = corpus + known-finding inputs + boundary list (failing moves, self-destructing create, destruct during the "
             "init fan-out, move_or_destruct hooks that move / destruct / re-enter, living names, reference read-back, a 220 "
             "object population) + seeded random histories of load/clone/move/destruct/enable_commands/set_living_name/"
             "find_object/find_living/error from top level and from create/init/move_or_destruct hook scripts, populations 2..8 "
@@ -88,7 +93,135 @@ class C08(Prop):
         if not re.search(r"return\s+whashstr\s*\(str,\s*20\)\s*%\s*CONFIG_INT\s*\(__LIVING_HASH_TABLE_SIZE__\)", ob):
             from nvlib.extract import TieBroken
             raise TieBroken("object.c:hash_living_name", "hash_living_name is no longer whashstr(str, 20) % size")
-        out = ["/-- lib/misc/hash.c `T[]` -/",
+        # ---- statement order of the functions the model mirrors: regenerated, tied by `*_order_tie` theorems ----
+        from nvlib.extract import TieBroken
+
+        def body_of(path, header_re):
+            src = open(os.path.join(E.REPO, path)).read()
+            m = re.search(header_re, src)
+            if not m:
+                raise TieBroken(path, "function header %r not found in %s" % (header_re, path))
+            i = src.index("{", m.end() - 1)
+            depth, j = 0, i
+            while True:
+                if src[j] == "{":
+                    depth += 1
+                elif src[j] == "}":
+                    depth -= 1
+                    if depth == 0:
+                        break
+                j += 1
+            return src[i:j + 1]
+
+        def order(path, header_re, markers):
+            """names of the markers sorted by the position of their first occurrence in the function body"""
+            b = body_of(path, header_re)
+            pos = []
+            for name, rx in markers:
+                m = re.search(rx, b)
+                if not m:
+                    raise TieBroken("%s:%s" % (path, name), "marker %s (%s) not found" % (name, rx))
+                pos.append((m.start(), name))
+            return [n for _, n in sorted(pos)]
+
+        orders = {
+            "destructOrder": order("src/simulate.c", r"\nvoid destruct_object \(object_t \* ob\) \{", [
+                ("restrict-test", r"restrict_destruct && restrict_destruct != ob"),
+                ("already-destructed-return", r"if \(ob->flags & O_DESTRUCTED\)\s*\{\s*opt_trace"),
+                ("cache-super", r"super = ob->super;"),
+                ("inventory-loop", r"while \(ob->contains\)"),
+                ("set-restrict", r"restrict_destruct = ob->contains;"),
+                ("apply-move_or_destruct", r"apply \(APPLY_MOVE, ob->contains"),
+                ("restore-restrict", r"restrict_destruct = save_restrict_destruct;"),
+                ("recheck-after-hook", r"OUCH"),
+                ("nested-destruct", r"destruct_object \(otmp\);\s*/\* move_or_destruct"),
+                ("recheck-after-nested", r"we are already unlinked then"),
+                ("remove-sent-env", r"remove_sent \(ob, ob->super\)"),
+                ("unlink-from-env", r"\*pp = \(\*pp\)->next_inv;"),
+                ("remove-object-hash", r"remove_object_hash \(ob\); /\* not vital object \*/"),
+                ("unlink-obj-list", r"pp = &obj_list; \*pp"),
+                ("remove-living-name", r"remove_living_name \(ob\);"),
+                ("drop-sentences", r"ob->sent = NULL;"),
+                ("clear-enable-commands", r"ob->flags &= ~O_ENABLE_COMMANDS;"),
+                ("clear-super", r"ob->super = 0;"),
+                ("push-destruct-list", r"obj_list_destruct = ob;"),
+                ("heart-beat-off", r"set_heart_beat \(ob, 0\);"),
+                ("mark-destructed", r"ob->flags \|= O_DESTRUCTED;")]),
+            "moveEfunOrder": order("lib/efuns/inventory.c", r"\nf_move_object \(void\)\s*\{", [
+                ("resolve-destination", r"find_or_load_object \(sp->u.string\)"),
+                ("mover-destructed-test", r"\(o1 = current_object\)->flags & O_DESTRUCTED"),
+                ("move_object", r"move_object \(o1, o2\);")]),
+            "moveOrder": order("src/simulate.c", r"\nvoid move_object \(object_t \* item, object_t \* dest\) \{", [
+                ("cycle-walk", r"for \(ob = dest; ob; ob = ob->super\)"),
+                ("dest-destructed-test", r"dest && dest->flags & O_DESTRUCTED"),
+                ("remove-sent", r"remove_sent \(item->super, item\);"),
+                ("unlink", r"\*pp = item->next_inv;"),
+                ("set-super", r"item->super = dest;"),
+                ("link-at-head", r"dest->contains = item;"),
+                ("init-dest", r"apply \(APPLY_INIT, dest, 0"),
+                ("recheck-after-init-dest", r"\(dest->flags & O_DESTRUCTED\) \|\| item->super != dest"),
+                ("loop", r"for \(ob = dest->contains; ob; ob = next_ob\)"),
+                ("save-next", r"next_ob = ob->next_inv;"),
+                ("skip-item", r"if \(ob == item\)\s*continue;"),
+                ("cursor-destructed-error", r"An object was destructed at call of"),
+                ("cursor-left-break", r"if \(ob->super != dest\)\s*break;"),
+                ("init-item-by-ob", r"command_giver = ob;\s*\(void\) apply \(APPLY_INIT, item"),
+                ("item-destructed-error", r"The object to be moved was destructed"),
+                ("cursor-left-continue", r"if \(ob->super != dest\)[^\n]*\n\s*continue;"),
+                ("init-ob-by-item", r"command_giver = item;\s*\(void\) apply \(APPLY_INIT, ob"),
+                ("dest-gone-error", r"The destination to move to was destructed"),
+                ("init-item-by-dest", r"command_giver = dest;\s*\(void\) apply \(APPLY_INIT, item")]),
+            "loadOrder": order("src/simulate.c", r"\nobject_t\* load_object \(const char \*mudlib_filename, const char \*pre_text\) \{", [
+                ("alloc", r"ob = get_empty_object \(prog->num_variables_total\);"),
+                ("push-obj-list", r"obj_list = ob;"),
+                ("enter-hash", r"enter_object_hash \(ob\);\s*/\* add name"),
+                ("create", r"call_create \(ob, 0\);"),
+                ("restore-command-giver", r"command_giver = save_command_giver;")]),
+            "cloneOrder": order("src/simulate.c", r"\nobject_t \*clone_object \(const char \*str1, int num_arg\) \{", [
+                ("find-or-load", r"ob = find_or_load_object \(str1\);"),
+                ("clone-of-clone-test", r"if \(ob->flags & O_CLONE\)"),
+                ("blueprint-heart-beat-off", r"set_heart_beat \(ob, 0\);"),
+                ("new-name", r"new_ob->name = make_new_name \(ob->name\);"),
+                ("push-obj-list", r"obj_list = new_ob;"),
+                ("enter-hash", r"enter_object_hash \(new_ob\);\s*/\* Add name"),
+                ("create", r"call_create \(new_ob, num_arg\);"),
+                ("restore-command-giver", r"command_giver = save_command_giver;\s*/\* Never know"),
+                ("destructed-test", r"if \(new_ob->flags & O_DESTRUCTED\)")]),
+            "findOrLoadOrder": order("src/simulate.c", r"\nobject_t \*find_or_load_object \(const char \*str\) \{", [
+                ("lookup", r"lookup_object_hash \(tmpbuf\)"),
+                ("load", r"load_object \(tmpbuf, 0\)"),
+                ("destructed-test", r"!ob \|\| \(ob->flags & O_DESTRUCTED\)")]),
+            "hbRemoveOrder": order("src/backend.c", r"\nint set_heart_beat \(object_t \* ob, int to\) \{", [
+                ("destructed-return", r"if \(ob->flags & O_DESTRUCTED\)\s*return 0;"),
+                ("adjust-index", r"if \(index <= heart_beat_index\)\s*heart_beat_index--;"),
+                ("adjust-todo", r"if \(index < num_hb_to_do\)\s*num_hb_to_do--;\s*\}\s*\n\s*if \(\(num ="),
+                ("close-gap", r"memmove \(heart_beats \+ index"),
+                ("count-down", r"num_hb_objs--;")]),
+            "present2Order": order("src/simulate.c", r"\nstatic object_t\* object_present2 \(char \*str, object_t \* ob\) \{", [
+                ("remember-env", r"object_t \*env = ob \? ob->super : 0;"),
+                ("loop", r"for \(; ob; ob = ob->next_inv\)"),
+                ("apply-id", r"apply \(APPLY_ID, ob, 1"),
+                ("destructed-return", r"if \(ob->flags & O_DESTRUCTED\)\s*return 0;"),
+                ("left-env-return", r"if \(ob->super != env\)\s*return 0;"),
+                ("zero-continue", r"if \(IS_ZERO \(ret\)\)\s*continue;")]),
+        }
+        # the error texts the model reproduces must still be in the source
+        texts = {"errInsideSrc": ("src/simulate.c", "*Can't move object inside itself."),
+                 "errDestDestSrc": ("src/simulate.c", "*Can't move to a destructed object."),
+                 "errMoveDestedSrc": ("lib/efuns/inventory.c", "move_object(): can't move a destructed object"),
+                 "errNoDestSrc": ("lib/efuns/inventory.c", "move_object failed: could not find destination"),
+                 "errRestrictSrc": ("src/simulate.c", "*Only this_object() can be destructed from move_or_destruct."),
+                 "errCloneCloneSrc": ("src/simulate.c", "*Cannot clone from a clone!")}
+        tl = []
+        for name, (path, txt) in texts.items():
+            if txt not in open(os.path.join(E.REPO, path)).read():
+                raise TieBroken("%s:%s" % (path, name), "error text %r no longer in %s" % (txt, path))
+            tl.append('/-- `%s` -/\ndef %s : String := "%s"' % (path, name, txt.replace('"', '\\"')))
+        ol = []
+        for name, lst in orders.items():
+            ol.append("/-- statement order in the C source (first occurrences), regenerated on every run -/\n"
+                      "def %s : List String := [%s]" % (name, ", ".join('"%s"' % x for x in lst)))
+        out = ol + tl + ["/-- lib/misc/hash.c `T[]` -/",
                "def pearsonT : Array Nat := #[%s]" % ", ".join(str(x) for x in nums),
                "/-- lib/rc/rc.cpp `__LIVING_HASH_TABLE_SIZE__` -/",
                "def livingHashSize : Nat := %s" % m2.group(1),
@@ -151,6 +284,14 @@ class C08(Prop):
             t mv,o5,o2\nt mv,o4,o2\nt mv,o6,o3\nt mv,o7,o3\nt pr,o2,o6\nt pr,o2,o5\nt pr,o3,o4\nt pr,o2,o9\n""" + tail)
         mk("present-id-destructs", """script o4 id de,o5\nscript o4 id de,o4\nscript o6 id de,o2\nt ld,b0\nt cl,b0\nt cl,b0\nt cl,b0\nt cl,b0
             t mv,o3,o2\nt mv,o5,o2\nt mv,o4,o2\nt mv,o6,o2\nt pr,o2,o3\nsnap\nt pr,o2,o3\nt pr,o2,o3\nt pr,o2,o3\n""" + tail)
+        # driver-initiated calls: the backend tick
+        mk("heart-beat-last-object-destructs-itself", "script o3 hbeat de,o3\nt ld,b0\nt cl,b0\nt hbe,o2\nt hbe,o3\nprobe\ntick\nsnap\nprobe\ntick\n" + tail)
+        mk("heart-beat-earlier-object-destructs-the-last", "script o2 hbeat de,o4\nt ld,b0\nt cl,b0\nt cl,b0\nt hbe,o2\nt hbe,o3\nt hbe,o4\ntick\nsnap\nprobe\ntick\n" + tail)
+        mk("heart-beat-variants", """script o2 hbeat mv,o2,o3;de,o3\nscript o4 hbeat hbd,o5;hbe,o6\nscript o5 hbeat err\nscript o6 hbeat cl,b0\nscript o4 hbeat de,o2;de,o4
+            t ld,b0\nt cl,b0\nt cl,b0\nt cl,b0\nt cl,b0\nt hbe,o2\nt hbe,o4\nt hbe,o5\ntick\nsnap\nprobe\ntick\nt hbe,o5\ntick\ngc\ntick\n""" + tail)
+        # an error inside a move_or_destruct hook must not leave the destruct restriction behind
+        mk("error-in-move_or_destruct-then-destruct", """script o3 mod err\nscript o3 mod mvarg\nt ld,b0\nt cl,b0\nt cl,b0\nt ld,b1\nt mv,o3,o2\nt mv,o2,o5
+            t de,o2\nsnap\nt de,o4\nsnap\nt de,o2\n""" + tail)
         mk("references-read-zero", """t ld,b0\nt cl,b0\nt kp,o3\nt rd\nscript o3 create kp,o2;rd\nt de,o3\nt rd\nt kp,o3\nt mv,o3,o2\nt mv,o2,o3\nt ec,o3\nt ln,o3,x\nt de,o3\ngc\nt rd\n""" + tail)
         mk("reload-after-destruct", "t ld,b0\nt cl,b0\nt de,o2\nt fo,b0\nt ld,b0\nt fo,b0\nt cl,b0\nt fo,b0#1\nt fo,b0#2\ngc\nt de,o4\nt ld,b0\n" + tail)
         mk("find-moves-to-front", "t ld,b0\nt ld,b1\nt ld,b2\nt ld,b3\nt ld,b4\nt ld,b5\nt ld,b6\nt ld,b7\nsnap\nt fo,b0\nt fo,b3\nt fo,b5\nsnap\nt de,o4\nt de,o9\n" + tail)
@@ -163,9 +304,9 @@ class C08(Prop):
         return B
 
     OPS = [("ld", 9), ("cl", 14), ("mv", 28), ("de", 9), ("ec", 14), ("dc", 2), ("ln", 4), ("fo", 5), ("fl", 3),
-           ("kp", 3), ("rd", 2), ("err", 1), ("aa", 9), ("cmd", 8), ("mvs", 10), ("fis", 3), ("pr", 6)]
+           ("kp", 3), ("rd", 2), ("err", 1), ("aa", 9), ("cmd", 8), ("mvs", 10), ("fis", 3), ("pr", 6), ("hbe", 7), ("hbd", 2)]
     HOPS = [("ld", 5), ("cl", 8), ("mv", 24), ("de", 14), ("ec", 5), ("dc", 1), ("ln", 2), ("fo", 2), ("fl", 1),
-            ("kp", 2), ("rd", 2), ("err", 2), ("mvarg", 6), ("nop", 2), ("aa", 10), ("cmd", 3), ("mvs", 6), ("fis", 2), ("pr", 2)]
+            ("kp", 2), ("rd", 2), ("err", 2), ("mvarg", 6), ("nop", 2), ("aa", 10), ("cmd", 3), ("mvs", 6), ("fis", 2), ("pr", 2), ("hbe", 2), ("hbd", 2)]
 
     def gen_op(self, rng, st, table, self_id=None):
         k = rng.weighted(table)
@@ -204,7 +345,7 @@ class C08(Prop):
             return "pr,%s,%s" % (oid(), oid())
         if k == "fis":
             return "fis,%s" % rng.weighted([("b%d" % rng.below(st["nbp"]), 6), ("b%d" % (st["nbp"] + rng.below(40)), 6), ("nx", 1)])
-        if k in ("de", "ec", "dc", "kp"):
+        if k in ("de", "ec", "dc", "kp", "hbe", "hbd"):
             return "%s,%s" % (k, oid())
         if k == "aa":
             return "aa,%s,%s" % (oid(), rng.choice(["va", "vb", "vc"]))
@@ -250,7 +391,7 @@ class C08(Prop):
             # scripts for hooks that may fire during this step
             while nscripts < 14 and rng.chance(2, 5):
                 nscripts += 1
-                hk = rng.weighted([("create", 3), ("init", 6), ("mod", 5), ("act", 3), ("id", 4)])
+                hk = rng.weighted([("create", 3), ("init", 6), ("mod", 5), ("act", 3), ("id", 4), ("hbeat", 6)])
                 if hk == "create":
                     target = st["est"] + 1 + rng.below(2)
                 else:
@@ -279,6 +420,29 @@ class C08(Prop):
                 body.append("t pr,o%d,o%d" % (e, rng.choice(xs)))
                 if rng.chance(1, 2):
                     body.append("t pr,o%d,o%d" % (e, rng.choice(xs)))
+            elif rng.chance(1, 7):
+                # the backend tick: heart_beat() of every enabled object (driver-initiated calls)
+                if rng.chance(1, 3) and st["top"] >= 2:
+                    # the classic: the object enabled last destructs itself / is destructed by an earlier one
+                    x = rng.range(2, st["top"] + 1)
+                    body.append("t hbe,o%d" % x)
+                    who = x if rng.chance(1, 2) else rng.range(2, st["top"] + 1)
+                    st.setdefault("extra_scripts", []).append("script o%d hbeat de,o%d" % (who, x))
+                body.append("tick")
+                if rng.chance(1, 3):
+                    body.append("tick")
+            elif rng.chance(1, 20) and st["top"] >= 3:
+                # an error inside a move_or_destruct hook, then ordinary destructs
+                x, y = rng.range(2, st["top"] + 1), rng.range(2, st["top"] + 1)
+                st.setdefault("extra_scripts", []).append("script o%d mod err" % y)
+                body += ["t mv,o%d,o%d" % (y, x), "t de,o%d" % x, "t de,o%d" % rng.range(2, st["top"] + 1), "t de,o%d" % x]
+            elif rng.chance(1, 15) and st["top"] >= 2:
+                # living names: name, enable, look up (also after disable / destruct)
+                x = rng.range(2, st["top"] + 1)
+                nm = rng.choice(["la", "lb", "lc"])
+                body += ["t ln,o%d,%s" % (x, nm), "t ec,o%d" % x, "t fl,%s" % nm]
+                body.append(rng.choice(["t dc,o%d" % x, "t de,o%d" % x, "t ln,o%d,lb" % x, "t fl,lb"]))
+                body.append("t fl,%s" % nm)
             elif rng.chance(1, 12):
                 body.append("gc")
             else:
@@ -305,7 +469,7 @@ class C08(Prop):
 
     def histogram(self, cases, impl):
         h = {"objects_created": 0, "moves_ok": 0, "moves_refused": 0, "destructs": 0, "hooks_create": 0, "hooks_init": 0,
-             "hooks_mod": 0, "hooks_act": 0, "hooks_id": 0, "present_hit": 0, "present_miss": 0, "commands_hit": 0, "commands_miss": 0, "add_actions": 0, "errors": 0, "gone_reads": 0, "snapshots": 0, "probes": 0, "max_population": 0, "scripts": 0}
+             "hooks_mod": 0, "hooks_act": 0, "hooks_id": 0, "hooks_hbeat": 0, "ticks": 0, "present_hit": 0, "present_miss": 0, "commands_hit": 0, "commands_miss": 0, "add_actions": 0, "errors": 0, "gone_reads": 0, "snapshots": 0, "probes": 0, "max_population": 0, "scripts": 0}
         for c in cases:
             pop = 0
             for l in impl.get(c.id, []):
@@ -346,6 +510,129 @@ class C08(Prop):
             h["max_population"] = max(h["max_population"], pop)
             h["scripts"] += sum(1 for l in c.lines if l.startswith("script "))
         return h
+
+
+    # ---- oracle self-test: negative examples per clause (the kernel cannot evaluate the string functions of `judge`,
+    # so these are executed with the compiled oracle on every run instead of being `example`s) --------------------
+    def judge_selftest(self):
+        G = ["S o2 c08/b0 env=0 inv=o3 ec=1 cl=0 ln=la sent=-", "S o3 c08/b0#1 env=o2 inv= ec=0 cl=1 ln=0 sent=-",
+             "S ot 1 o2", "S ot 2 o3", "S ol o3,o2", "S dl", "S lv 7 o2"]
+
+        def snap(**repl):
+            out = []
+            for l in G:
+                key = " ".join(l.split()[:2]) if l.split()[1] in ("ot", "lv", "ol", "dl") else l.split()[1]
+                k2 = l.split()[1] + ("" if l.split()[1] in ("ol", "dl") else l.split()[2]) if l.split()[1] in ("ot", "lv", "ol", "dl") else l.split()[1]
+                out.append(repl.get(k2, l))
+            return [x for x in out if x is not None] + repl.get("extra", [])
+        P2 = "P o2 ref=o2 find=o2/1 env=0 inv=o3 walk=o3 fl=o2"
+        P3 = "P o3 ref=o3 find=o3/1 env=o2 inv= walk= fl=-"
+        born = ["new o2 c08/b0", "he o2 create", "new o3 c08/b0#1", "he o3 create"]
+        dead3 = born + ["deb o3", "r de o3 ok"]
+        mv = ["mvb o3 o2", "r mv o3 o2 ok"]
+        T = [  # (expected kind, trace)
+            ("ok", snap() + [P2, P3, "P objects o2,o3", "P livings o2", "P heartbeats o2"]),
+            ("ok", born + mv + ["deb o2", "hb o3 mod 0", "he o3 mod", "r de o2 ok"]),
+            ("resurrected", dead3 + snap()),
+            ("name-not-unique", snap(o3="S o3 c08/b0 env=o2 inv= ec=0 cl=1 ln=0 sent=-")),
+            ("env-not-live", snap(o3="S o3 c08/b0#1 env=o9 inv= ec=0 cl=1 ln=0 sent=-")),
+            ("env-inventory-disagree", snap(o2="S o2 c08/b0 env=0 inv= ec=1 cl=0 ln=la sent=-")),
+            ("inventory-duplicate", snap(o2="S o2 c08/b0 env=0 inv=o3,o3 ec=1 cl=0 ln=la sent=-")),
+            ("inventory-has-non-live", snap(o2="S o2 c08/b0 env=0 inv=o3,o7 ec=1 cl=0 ln=la sent=-")),
+            ("in-two-inventories", snap(extra=["S o4 c08/b1 env=0 inv=o3 ec=0 cl=0 ln=0 sent=-", "S ot 3 o4"], ol="S ol o4,o3,o2")),
+            ("env-cycle", snap(o2="S o2 c08/b0 env=o3 inv=o3 ec=1 cl=0 ln=la sent=-", o3="S o3 c08/b0#1 env=o2 inv=o2 ec=0 cl=1 ln=0 sent=-")),
+            ("name-table-miss", snap(ot2=None)),
+            ("name-table-miss", snap(ot2="S ot 2 o3,o3")),
+            ("object-list-miss", snap(ol="S ol o2")),
+            ("living-table-miss", snap(lv7=None)),
+            ("living-table-extra", snap(lv7="S lv 7 o2,o3")),
+            ("destructed-registered", snap(ot1="S ot 1 o2,o8")),
+            ("live-on-destruct-list", snap(dl="S dl o3")),
+            ("destruct-list-duplicate", snap(dl="S dl o8,o8")),
+            ("destructed-still-linked", snap(extra=["S o5 D super"])),
+            ("destructed-still-linked", snap(extra=["S o5 D sent"])),
+            ("destructed-called", dead3 + ["mvb o2 o2"][:0] + ["deb o2", "hb o3 mod 0"]),
+            ("destructed-called", dead3 + ["hb o3 hbeat 0"]),
+            ("destructed-called", dead3 + ["hb o3 act o2"]),
+            ("destructed-called", dead3 + ["hb o3 id 0"]),
+            ("called-while-destructed", ["hb-stale-object o3"]),
+            ("destructed-visible", dead3 + ["mvb o2 o2"][:0] + ["hb o2 act o3"]),
+            ("destructed-visible", dead3 + ["r fo c08/b0#1 o3 1"]),
+            ("destructed-visible", dead3 + ["r cl c08/b0 o3"]),
+            ("destructed-visible", dead3 + ["r fl la o3 1"]),
+            ("destructed-visible", dead3 + ["r rd o2 o3 o3 o3"]),
+            ("destructed-visible", dead3 + ["r kp o2 o3 ok"]),
+            ("destructed-visible", dead3 + ["r ec o3 ok"]),
+            ("destructed-visible", dead3 + ["r ln o3 la ok"]),
+            ("destructed-visible", dead3 + ["r aa o3 va ok"]),
+            ("destructed-visible", dead3 + ["r hbe o3 ok"]),
+            ("destructed-visible", dead3 + ["r fis c08/b0 o3"]),
+            ("destructed-visible", dead3 + ["r pr o2 o3 o3"]),
+            ("destructed-visible", dead3 + ["P objects o2,o3"]),
+            ("destructed-visible", dead3 + ["P livings o3"]),
+            ("destructed-visible", dead3 + ["P heartbeats o3"]),
+            ("destructed-visible", dead3 + ["P o2 ref=o2 find=o2/1 env=o3 inv= walk= fl=-"]),
+            ("destructed-visible", dead3 + ["P o2 ref=o2 find=o2/1 env=0 inv=o3 walk= fl=-"]),
+            ("destructed-reference-used", dead3 + ["deb o3"]),
+            ("destructed-reference-used", dead3 + ["mvsb o3 c08/b1"]),
+            ("destructed-moved", dead3 + ["mvb o3 o2", "r mv o3 o2 ok"]),
+            ("moved-into-destructed", dead3 + ["mvb o2 o3", "r mv o2 o3 ok"]),
+            ("destructed-moved", born + ["mvsb o3 c08/b0", "deb o3", "r de o3 ok", "r mvs o3 c08/b0 ok o2"]),
+            ("move-into-own-inventory-accepted", born + mv + ["mvb o2 o3", "r mv o2 o3 ok"]),
+            ("move-refused", born + ["mvb o3 o2", "err *Can't move object inside itself."]),
+            ("id-reused", born + ["new o3 c08/b1"]),
+            ("frame-mismatch", born + ["mvb o3 o2", "r mv o2 o3 ok"]),
+            ("frame-mismatch", born[:2] + ["he o2 init"]),
+            ("init-outside-move", born + ["hb o2 init o3"]),
+            ("init-without-moved-object", born + ["new o4 c08/b1", "he o4 create", "mvb o3 o2", "hb o4 init o2"]),
+            ("init-after-item-left", born + ["new o4 c08/b1", "he o4 create", "mvb o3 o2", "hb o2 init o3", "mvb o3 o4", "r mv o3 o4 ok", "he o2 init", "hb o3 init o2"]),
+            ("init-with-object-outside-destination", born + ["new o4 c08/b1", "he o4 create", "mvb o3 o2", "hb o3 init o4"]),
+            ("move_or_destruct-outside-destruct", born + ["hb o3 mod 0"]),
+            ("found-destructed", ["r ld c08/b0 0 1"]),
+            ("found-destructed", ["r fo c08/b0 0 1"]),
+            ("found-destructed", ["r fl la 0 1"]),
+            ("found-destructed", ["P o2 ref=o2 find=0/1 env=0 inv= walk= fl=-"]),
+            ("reference-reads-differ", born + ["r rd o2 o3 0 o3"]),
+            ("objects-mismatch", snap() + ["P objects o2"]),
+            ("livings-mismatch", snap() + ["P livings o2,o3"]),
+            ("heartbeats-mismatch", snap() + ["P heartbeats o9"]),
+            ("destructed-reference-nonzero", snap() + ["P o7 ref=o7 find=0/0"]),
+            ("live-reference-lost", snap() + ["P o3 ref=0 find=o3/1 env=o2 inv= walk= fl=-"]),
+            ("lookup-wrong", snap() + ["P o3 ref=o3 find=0/0 env=o2 inv= walk= fl=-"]),
+            ("lookup-wrong", snap() + ["P o3 ref=o3 find=o2/1 env=o2 inv= walk= fl=-"]),
+            ("environment-mismatch", snap() + ["P o3 ref=o3 find=o3/1 env=0 inv= walk= fl=-"]),
+            ("all_inventory-mismatch", snap() + ["P o2 ref=o2 find=o2/1 env=0 inv= walk=o3 fl=o2"]),
+            ("first-next-inventory-mismatch", snap() + ["P o2 ref=o2 find=o2/1 env=0 inv=o3 walk= fl=o2"]),
+            ("find_living-wrong", snap() + ["P o2 ref=o2 find=o2/1 env=0 inv=o3 walk=o3 fl=o3"]),
+            ("find_living-missed", snap() + ["P o2 ref=o2 find=o2/1 env=0 inv=o3 walk=o3 fl=0"]),
+            ("present-outside-environment", born + ["new o4 c08/b1", "he o4 create", "mvb o3 o4", "r mv o3 o4 ok", "r pr o2 o3 o3"]),
+            ("present-wrong-object", born + mv + ["r pr o2 o9 o3"]),
+            ("destruct-refused", born + ["deb o3", "err *Only this_object() can be destructed from move_or_destruct."]),
+            ("ok", born + mv + ["deb o2", "hb o3 mod 0", "deb o2", "err *Only this_object() can be destructed from move_or_destruct."]),
+            ("walker", ["W ot-destructed o2"]),
+            ("crash", ["crash signal 11"]),
+            ("memory-error", ["sanitizer ERROR: AddressSanitizer: heap-use-after-free"]),
+            ("unexpected-line", ["something else"]),
+        ]
+        return T
+
+    def extra_checks(self, ctx, tier, rng):
+        T = self.judge_selftest()
+        cases = [E.Case("jt%d" % i, ["--"] + tr) for i, (_, tr) in enumerate(T)]
+        res = E.nvdrive(self.id, "judge", E.cases_text(cases))
+        bad = []
+        for i, (kind, _) in enumerate(T):
+            v = res.get("jt%d" % i, [])
+            got = [x.split()[1] for x in v if x.startswith("bad ") and len(x.split()) > 1]
+            if kind == "ok":
+                if v != ["ok"]:
+                    bad.append("positive example %d judged %s" % (i, v[:2]))
+            elif kind not in got:
+                bad.append("negative example %d (%s) judged %s" % (i, kind, v[:2]))
+        self.selftest_n = len(T)
+        if bad:
+            return [{"kind": "obligation-broken", "name": "judge-selftest", "detail": "\n".join(bad[:20])}]
+        return []
 
     # ---- implementation side -------------------------------------------------
     def prepare(self, ctx):
